@@ -8,6 +8,7 @@ from skglm.solvers.common import (
 from skglm.solvers.base import BaseSolver
 from skglm.utils.anderson import AndersonAcceleration
 from skglm.utils.validation import check_attrs
+from skglm import _verif
 
 
 class AndersonCD(BaseSolver):
@@ -96,6 +97,9 @@ class AndersonCD(BaseSolver):
                     "w should be of size n_features: "
                     f"expected {n_features}, got {len(w)}.")
             raise ValueError(val_error_message)
+        if _verif.ON:
+            _verif.emit("init", solver=self, X=X, y=y, datafit=datafit,
+                        penalty=penalty, w=w, Xw=Xw)
 
         for t in range(self.max_iter):
             if is_sparse:
@@ -122,6 +126,8 @@ class AndersonCD(BaseSolver):
                 intercept_opt = 0.
 
             stop_crit = max(np.max(opt), intercept_opt)
+            if _verif.ON:
+                _verif.emit("outer", t=t, stop_crit=stop_crit, w=w, Xw=Xw)
 
             if self.verbose:
                 print(f"Stopping criterion max violation: {stop_crit:.2e}")
@@ -137,6 +143,8 @@ class AndersonCD(BaseSolver):
 
             # here use topk instead of np.argsort(opt)[-ws_size:]
             ws = np.argpartition(opt, -ws_size)[-ws_size:]
+            if _verif.ON:
+                _verif.emit("ws", t=t, ws=ws)
 
             # re init AA at every iter to consider ws
             accelerator = AndersonAcceleration(K=5)
@@ -164,6 +172,8 @@ class AndersonCD(BaseSolver):
                     intercept_old = w[-1]
                     w[-1] -= datafit.intercept_update_step(y, Xw)
                     Xw += (w[-1] - intercept_old)
+                if _verif.ON:
+                    _verif.emit("epoch", t=t, epoch=epoch, w=w, Xw=Xw)
 
                 # 3) do Anderson acceleration on smaller problem
                 w_acc[ws_intercept], Xw_acc[:], is_extrap = accelerator.extrapolate(
@@ -179,6 +189,9 @@ class AndersonCD(BaseSolver):
                     if p_obj_acc < p_obj:
                         w[:], Xw[:] = w_acc, Xw_acc
                         p_obj = p_obj_acc
+                if _verif.ON:
+                    _verif.emit("aa", t=t, epoch=epoch, is_extrap=is_extrap, w=w, Xw=Xw,
+                                w_acc=w_acc, Xw_acc=Xw_acc)
 
                 if epoch % 10 == 0:
                     if is_sparse:
@@ -194,6 +207,9 @@ class AndersonCD(BaseSolver):
                         )
 
                     stop_crit_in = np.max(opt_ws)
+                    if _verif.ON:
+                        _verif.emit("inner", t=t, epoch=epoch,
+                                    stop_crit_in=stop_crit_in)
                     if max(self.verbose - 1, 0):
                         p_obj = (datafit.value(y, w[:n_features], Xw) +
                                  penalty.value(w[:n_features]))
@@ -209,6 +225,8 @@ class AndersonCD(BaseSolver):
                             break
             p_obj = datafit.value(y, w[:n_features], Xw) + penalty.value(w[:n_features])
             obj_out.append(p_obj)
+            if _verif.ON:
+                _verif.emit("record", t=t, p_obj=p_obj, w=w, Xw=Xw)
         return w, np.array(obj_out), stop_crit
 
     def path(self, X, y, datafit, penalty, alphas=None, w_init=None,
@@ -261,6 +279,8 @@ class AndersonCD(BaseSolver):
                     Xw = np.zeros(X.shape[0], dtype=X.dtype)
 
             sol = self.solve(X, y, datafit, penalty, w, Xw)
+            if _verif.ON:
+                _verif.emit("path_step", t=t, alpha=alpha, sol=sol, w=w, Xw=Xw)
 
             coefs[:, t] = sol[0]
             stop_crits[t] = sol[-1]
